@@ -71,26 +71,33 @@ func VerifC19Pipeline() {
 		n = 1 + verifnd.Choice(3)
 	}
 	type sub struct {
-		p          ncsclient.ReceiptPayload
+		p             ncsclient.ReceiptPayload
 		hashOK, sigOK bool
+		hc            int
 	}
 	subs := make([]sub, n)
 	for i := range subs {
 		text := verifnd.Str()
 		good := crypto.Keccak256Hash([]byte(text)).Bytes()
 		var s sub
-		s.hashOK = verifnd.Bool()
-		if s.hashOK {
+		hc := verifnd.Choice(5)
+		s.hc = hc
+		s.hashOK = hc == 0
+		switch hc {
+		case 0:
 			s.p.Hash = good
-		} else {
+		case 1:
 			s.p.Hash = verifnd.Bytes(64)
 			verifnd.Assume(!bytes.Equal(s.p.Hash, good))
+		default: // every single-field corruption of the valid hash: junk prepended, truncated, one byte flipped
+			s.p.Hash = verifnd.CorruptBytes(good, hc-2)
 		}
 		s.sigOK = verifnd.Bool()
 		if s.sigOK {
-			sig, err := crypto.Sign(s.p.Hash, key)
+			// a genuine signature over the digest of the text
+			sig, err := crypto.Sign(good, key)
 			if err != nil {
-				return // the hash is not signable (wrong length): not a well-formed triple; covered by the junk case
+				return
 			}
 			s.p.Signature = sig
 		} else {
@@ -118,7 +125,7 @@ func VerifC19Pipeline() {
 		}
 		wellFormed := s.hashOK && s.sigOK
 		verifnd.Assert(cnt <= 1, "C19.forwarded_at_most_once")
-		verifnd.Assert(wellFormed == (cnt == 1), "C19.forwarded_iff_well_formed", caseName(s.hashOK, s.sigOK))
+		verifnd.Assert(wellFormed == (cnt == 1), "C19.forwarded_iff_well_formed", caseName(s.hashOK, s.sigOK), hashCase(s.hc))
 		verifnd.Observe("c19", uint64(i), verifnd.B2U(s.hashOK), verifnd.B2U(s.sigOK), uint64(cnt))
 	}
 	verifnd.Assert(len(got) <= n, "C19.nothing_else_forwarded")
@@ -139,4 +146,18 @@ func caseName(h, s bool) string {
 		return "bad_hash"
 	}
 	return "bad_hash_and_signature"
+}
+
+func hashCase(hc int) string {
+	switch hc {
+	case 0:
+		return "hash_valid"
+	case 1:
+		return "hash_arbitrary"
+	case 2:
+		return "hash_junk_prepended"
+	case 3:
+		return "hash_truncated"
+	}
+	return "hash_byte_flipped"
 }
